@@ -280,7 +280,7 @@ def random_case(rng, cid, repeat_sn=False):
            "set_straddles_start": False}
   sn = rng.choice([0, 1, 1, 250, 255, 1000, 65530]) if not repeat_sn else rng.choice([0, 1, 100, 200])
   t = None
-  nsub = rng.randint(1, 6)
+  nsub = rng.randint(1, 6) if rng.random() < 0.96 else rng.randint(40, 120)      # now and then a file of ordinary length
   multi_sgn = rng.random() < 0.15
   flags["multi_sgn"] = multi_sgn
 
@@ -294,6 +294,9 @@ def random_case(rng, cid, repeat_sn=False):
     text, tflags = gen_text(rng, tt, cct)
     if rng.random() < 0.06:
       text = text + _word(rng, cct, 60) + [0x20] + _word(rng, cct, 70)      # long: forces extension blocks
+      if rng.random() < 0.3:
+        for _ in range(rng.randint(2, 5)):                                     # very long: four and more extension blocks
+          text = text + [0x20] + _word(rng, cct, 90)
     chunks = split_tf(rng, text, cct)
     if len(chunks) > 1 and cf == 0:
       flags["ext"] = True
